@@ -527,6 +527,18 @@ func runBatchChild(job *Job, deadline time.Time) *ChildResult {
 				if c.Process != nil {
 					o := col.get(name)
 					o.Bg = append(o.Bg, BgObs{H: h, Pid: c.Process.Pid})
+					if h >= 50 && h < 100 {
+						// this kind announces when its signal handler is in place
+						ready := filepath.Join(obsDir, fmt.Sprintf("ready-%d", c.Process.Pid))
+						col.mu.Unlock()
+						for k := 0; k < 300; k++ {
+							if _, err := os.Stat(ready); err == nil {
+								break
+							}
+							time.Sleep(10 * time.Millisecond)
+						}
+						col.mu.Lock()
+					}
 				}
 			}
 		},
